@@ -1525,6 +1525,7 @@ class Engine:
                     self.emit("init", f"for-elem@{self.stmt_label(s)}", self.sel(SArr(arr.wr, arr.shape, None), idx),
                               body.guard, self.c.props)
             body.vars[evar] = v
+        self.emit("cover", f"loop{ordn}:body", z3.BoolVal(True), body.guard, frozenset(), expect="sat")
         self.iter_entries.append(dict(body.vars))
         r = self.exec_block(s.body, body)
         it_env = self.iter_entries.pop()
@@ -1590,6 +1591,7 @@ class Engine:
         c = to_bool(self.ev_code(s.test, head))
         self.flush_guarded(head, s)
         body = head.copy(zand(st.guard, c))
+        self.emit("cover", f"loop{ordn}:body", z3.BoolVal(True), body.guard, frozenset(), expect="sat")
         self.iter_entries.append(it_env)
         r = self.exec_block(s.body, body)
         self.iter_entries.pop()
